@@ -29,25 +29,43 @@ pub enum Kill {
     Commit { v: usize, delay_us: u64 },
 }
 
-/// Pure model of the history: items after each committed round (version r+1 = after round r).
-pub fn simulate(spec: &HistorySpec) -> Vec<BTreeMap<u32, Vec<f32>>> {
+#[derive(Clone, Debug)]
+pub struct VersionState {
+    pub items: BTreeMap<u32, Vec<f32>>,
+    pub built: bool,
+    pub stale: bool,
+}
+
+/// Pure model of the history: state after each committed round (version r+1 = after round r).
+pub fn simulate(spec: &HistorySpec) -> Vec<VersionState> {
     let isp = &spec.indexes[0];
-    let mut items: BTreeMap<u32, Vec<f32>> = BTreeMap::new();
-    let mut out = vec![items.clone()];
+    let mut cur = VersionState { items: BTreeMap::new(), built: false, stale: false };
+    let mut out = vec![cur.clone()];
     for r in &spec.rounds {
         for op in &r.ops {
             match op {
                 Op::Add { slot, vseed, .. } => {
-                    items.insert(isp.id_of(*slot), vector(isp.class, *vseed, isp.dims));
+                    cur.items.insert(isp.id_of(*slot), vector(isp.class, *vseed, isp.dims));
+                    cur.stale = true;
                 }
                 Op::Del { slot, .. } => {
-                    items.remove(&isp.id_of(*slot));
+                    if cur.items.remove(&isp.id_of(*slot)).is_some() {
+                        cur.stale = true;
+                    }
                 }
-                Op::Clear { .. } => items.clear(),
+                Op::Clear { .. } => {
+                    cur.items.clear();
+                    cur.built = false;
+                    cur.stale = false;
+                }
                 _ => {}
             }
         }
-        out.push(items.clone());
+        if !r.builds.is_empty() {
+            cur.built = true;
+            cur.stale = false;
+        }
+        out.push(cur.clone());
     }
     out
 }
@@ -100,7 +118,14 @@ fn child_run<D: Distance>(dir: &Path, spec: &HistorySpec, start: usize, kill: &K
                 _ => {}
             }
         }
-        let b = round.builds.first().cloned().unwrap_or(BuildOpts { ix: 0, n_trees: None, split_after: None, avail_mem: None, rng_seed: 1, threads: 1, cancel_at: None });
+        let Some(b) = round.builds.first().cloned() else {
+            // committed without a build: readers must be refused after a crash, too
+            say(&format!("CALLS {v} 0"));
+            say(&format!("COMMITTING {v}"));
+            wtxn.commit().expect("commit");
+            say(&format!("ACK {v}"));
+            continue;
+        };
         let calls = AtomicU64::new(0);
         let target = if let Kill::Callback { v: kv, k } = kill { if *kv == v { Some(*k) } else { None } } else { None };
         let hit = |calls: &AtomicU64| {
@@ -232,7 +257,7 @@ fn drive_child(dir: &Path, spec_file: &Path, start: usize, kill: &Kill, last_ack
 fn verify_dir<D: Distance>(
     dir: &Path,
     spec: &HistorySpec,
-    versions: &[BTreeMap<u32, Vec<f32>>],
+    versions: &[VersionState],
     admissible: &[usize],
     what: &str,
 ) -> Result<usize, Fail> {
@@ -257,9 +282,9 @@ fn verify_dir<D: Distance>(
         let mut last_err = None;
         for a in admissible {
             let m = IndexModel {
-                items: versions[*a].clone(),
-                built: *a > 0,
-                stale: false,
+                items: versions[*a].items.clone(),
+                built: versions[*a].built,
+                stale: versions[*a].stale,
                 prev_trees: 0,
                 trees_before: 0,
                 constant_cap: None,
@@ -285,7 +310,17 @@ fn verify_dir<D: Distance>(
                 format!("{what}: after reopening, the items ({} ids) equal none of the admissible committed versions {admissible:?}: {msg}", ids.len()),
             );
         };
-        if a > 0 {
+        let want_need = versions[a].stale || !versions[a].built;
+        match catch(|| w.need_build(&rtxn)) {
+            Ok(Ok(b)) if b == want_need => {}
+            other => {
+                return violation(
+                    "crash:need-build",
+                    format!("{what}: version {a} (built {}, pending updates {}): need_build = {:?}", versions[a].built, versions[a].stale, other.map(|r| r.map_err(|e| format!("{e:?}"))).map_err(|p| p.message)),
+                )
+            }
+        }
+        if versions[a].built && !versions[a].stale {
             let cfg = RunCfg { structure: true, search_exact: true, store: true, ..Default::default() };
             let mut st = CaseStats::default();
             match interp::check_built_index::<D>(spec.metric, db, raw, &rtxn, isp, &m, None, a as u32, &cfg, &mut st) {
@@ -294,9 +329,22 @@ fn verify_dir<D: Distance>(
                 Err(e) => return Err(e),
             }
         } else {
-            match catch(|| Reader::<D>::open(&rtxn, isp.index, db).map(|_| ())) {
-                Ok(Err(arroy::Error::MissingMetadata(_))) => {}
-                other => return violation("crash:invalid-index", format!("{what}: nothing was committed, yet Reader::open = {:?}", other.map(|r| r.map_err(|e| format!("{e:?}"))).map_err(|p| p.message))),
+            let got = catch(|| Reader::<D>::open(&rtxn, isp.index, db).map(|_| ()));
+            let ok = match (&got, versions[a].built) {
+                (Ok(Err(arroy::Error::MissingMetadata(_))), false) => true,
+                (Ok(Err(arroy::Error::NeedBuild(_))), true) => true,
+                _ => false,
+            };
+            if !ok {
+                return violation(
+                    "crash:served-unbuilt",
+                    format!(
+                        "{what}: version {a} was committed without a fresh build (built {}, pending updates {}), yet Reader::open = {:?}",
+                        versions[a].built,
+                        versions[a].stale,
+                        got.map(|r| r.map_err(|e| format!("{e:?}"))).map_err(|p| p.message)
+                    ),
+                );
             }
         }
         drop(rtxn);
@@ -449,9 +497,9 @@ fn c09_gen() -> GenCfg {
         n_trees: vec![(1, vec![None]), (3, vec![Some(1), Some(2), Some(3)])],
         avail_mem: vec![(1, vec![None])],
         abort_pct: 0,
-        build_pct: 100,
+        build_pct: 85,
         op_weights: [70, 28, 0, 2, 0],
-        edge_ids: false,
+        edge_ids: true,
         ..GenCfg::small()
     }
 }
